@@ -336,6 +336,7 @@ def run_cases(prop, ctx, cases, soft_deadline, case_timeout=60):
             if not ok:
                 ctx.violation("no-progress", "call did not return within %d line events "
                               "(bounded-progress budget for a case of size %d)" % (budget, case_size(case)))
+                case_timeout = min(case_timeout, 5)      # a proven hang: do not wait a minute for each further one
             else:
                 ctx.inconclusive.append("case %d hit the %ds wall-clock watchdog but finished within the "
                                         "line budget (%d events)" % (idx, case_timeout, used))
